@@ -386,3 +386,63 @@ func c05SharedMD(r *Run) {
 		rig.Close()
 	}
 }
+
+// c05UnaryTrailerOwner: unary handlers that set trailer metadata, followed by unary calls whose handlers
+// set none, on the same connection and on a second one. On the wire every reply carries the trailer
+// metadata of ITS call only: a call that set none has none, a call that set one has exactly its own.
+func c05UnaryTrailerOwner(r *Run) {
+	if !r.Want("unarytrailer") {
+		return
+	}
+	for rep, reps := 0, r.Scale(4, 40); rep < reps && r.NumViolations() <= 4; rep++ {
+		rigs := []*Rig{NewRig(RigOpt{Serialise: true}), NewRig(RigOpt{Serialise: rep%2 == 0})}
+		for _, rig := range rigs {
+			rig.Impl.SetUnary(func(ctx context.Context, req []byte) ([]byte, error) {
+				if len(req) > 1 && req[0] == 't' {
+					grpc.SetTrailer(ctx, metadata.Pairs("owner", string(req[1:])))
+				}
+				return req, nil
+			})
+		}
+		for i := 0; i < 12 && r.NumViolations() <= 4; i++ {
+			rig := rigs[(i/4)%2]
+			sets := i%4 == 0
+			payload := fmt.Sprintf("p%d.%d", rep, i)
+			if sets {
+				payload = fmt.Sprintf("t%d.%d", rep, i)
+			}
+			in := map[string]any{"rep": rep, "call": i, "handler_sets_trailer": sets, "connection": (i / 4) % 2}
+			r.Progress("unarytrailer", in)
+			before := len(rig.Wire.Snapshot())
+			cctx, cancel := context.WithTimeout(context.Background(), hangTimeout)
+			_, err := callUnary(cctx, rig.CC, []byte(payload))
+			cancel()
+			if err != nil {
+				r.Violate("unarytrailer.call", "ops", "a unary call failed", in, err.Error(), nil)
+				break
+			}
+			var got []string
+			found := false
+			for _, e := range rig.Wire.Snapshot()[before:] {
+				if e.Dir == "s2c" && e.Rpc.Trailer != nil {
+					found = true
+					for _, kv := range e.Rpc.Trailer.Metadata {
+						got = append(got, kv.Key+"="+kv.Value)
+					}
+				}
+			}
+			want := []string{}
+			if sets {
+				want = []string{"owner=" + payload[1:]}
+			}
+			r.Eval(fmt.Sprintf("unarytrailer/%d/%d", rep, i), true)
+			r.Count("c05.unarytrailer")
+			if found && fmt.Sprint(got) != fmt.Sprint(want) {
+				r.Violate("unarytrailer.owner", "history", "a unary reply carries trailer metadata that its own handler did not set", in, got, want)
+			}
+		}
+		for _, rig := range rigs {
+			rig.Close()
+		}
+	}
+}
